@@ -185,6 +185,13 @@ func getObjPrototype() *Value {
 						if err != nil {
 							return nil, err
 						}
+						if val != nil && this.Tag == ValueObj {
+							// only the object's own keys: GetMember falls back to the
+							// prototype and finds methods such as "length"
+							if _, own := (*this.Obj)[value.String()]; !own {
+								val = nil
+							}
+						}
 
 						if val == nil {
 							_, err = newObj.SetMember(*value, NewCell(NewValue(nil)))
